@@ -223,3 +223,14 @@ Proof.
   destruct (fin_spec _ H1) as (a & Ea & _). destruct (fin_spec _ H2) as (b & Eb & _).
   exists a, b. rewrite Ea, Eb in H3. auto.
 Qed.
+
+Theorem deltat_joints_monthly : forall J, In J joints_monthly ->
+  exists a b, tt2ut (VInt J) (VInt 1) = VFloat a /\ tt2ut (VInt (J - 1)) (VInt 12) = VFloat b /\
+              (PrimFloat.abs (a - b) <? 1)%float = true.
+Proof.
+  intros J HJ. pose proof C10_dt.joints_month as H. rewrite forallb_forall in H.
+  specialize (H J HJ). unfold chk_month_jump in H. apply andb_true_iff in H. destruct H as [H H3].
+  apply andb_true_iff in H. destruct H as [H1 H2].
+  destruct (fin_spec _ H1) as (a & Ea & _). destruct (fin_spec _ H2) as (b & Eb & _).
+  exists a, b. rewrite Ea, Eb in H3. auto.
+Qed.
